@@ -139,8 +139,13 @@ func runC01_3(c *Ctx) {
 	for _, sb := range CallsTo(fn, setBody) {
 		arg := sb.Common().Args[0]
 		if isFieldLoad(sb.Common().Value, hcN, inIdx) && isFieldLoad(arg, ccN, resIdx) {
-			if _, fa, ok := LoadedField(arg); ok && fa != nil && isFieldLoad(fa.X, hcN, ccIdx) {
-				okBody = true
+			if _, fa, ok := LoadedField(arg); ok && fa != nil {
+				// the base is the bound call: read back from c.callCmd, or the looked-up entry itself
+				if isFieldLoad(fa.X, hcN, ccIdx) {
+					okBody = true
+				} else if ex, isEx := stripIface(fa.X).(*ssa.Extract); isEx && ex.Tuple == loads[0].(ssa.Value) && ex.Index == 0 && okBind {
+					okBody = true
+				}
 			}
 		}
 	}
